@@ -328,8 +328,9 @@ def run_pool(tier, seed, names=None, force=False):
         n, exe, scs = job
         runs = {}
         cat = os.path.join(cdir, "%s.all.tlc.ndjson" % n)
-        line = 0
-        with open(cat, "w") as catf:
+        mcat = os.path.join(cdir, "%s.all.merged.ndjson" % n)
+        line = mline = 0
+        with open(cat, "w") as catf, open(mcat, "w") as mcatf:
             for sname, text in scs:
                 base = os.path.join(cdir, "%s.%s" % (n, sname))
                 with open(base + ".script", "w") as f:
@@ -340,11 +341,19 @@ def run_pool(tier, seed, names=None, force=False):
                     data = f.read()
                 nlines = data.count("\n")
                 catf.write(data)
+                traceprep.write_for_tlc(base + ".raw.ndjson", base + ".merged.ndjson", merged=True)
+                with open(base + ".merged.ndjson") as f:
+                    mdata = f.read()
+                mlines = mdata.count("\n")
+                mcatf.write(mdata)
                 runs[sname] = {"script": base + ".script", "raw": base + ".raw.ndjson", "trace": base + ".tlc.ndjson", "harness_rc": rc,
                                "executions": nexec, "events": nlines, "first_line": line + 1, "last_line": line + nlines,
+                               "merged": base + ".merged.ndjson", "first_mline": mline + 1, "last_mline": mline + mlines,
                                "rejected": [], "findings": []}
                 line += nlines
+                mline += mlines
         v = vlib.validate_trace(cat, "%s.%s" % (key, n))
+        x = vlib.validate_cross(mcat, "%s.%s.x" % (key, n))
 
         def owner(ln):
             for sname, r in runs.items():
@@ -359,7 +368,11 @@ def run_pool(tier, seed, names=None, force=False):
             sname, local = owner(ln)
             if sname:
                 runs[sname]["findings"].append([prop, local, why])
-        return n, runs, {"trace": cat, "events": line, "secs": v["secs"], "error": v["error"], "accepted": v["accepted"]}
+        for (prop, ln, why) in x["findings"]:
+            for sname, r in runs.items():
+                if r["first_mline"] <= ln <= r["last_mline"]:
+                    r["findings"].append([prop, ln - r["first_mline"] + 1, why + " [merged trace]"])
+        return n, runs, {"trace": cat, "events": line, "secs": v["secs"] + x["secs"], "error": v["error"] or x["error"], "accepted": v["accepted"]}
 
     with ThreadPoolExecutor(max_workers=max(2, vlib.NCPU - 2)) as ex:
         for n, runs, summ in ex.map(one, jobs):
